@@ -91,17 +91,14 @@ inductive FoldOp (th th' : TraceHandler) : Prop where
   | foldEnd (id : Nat) (h : th.meetFoldEnd id = .ok th')
 
 /-- first canonicalisation at the designated peer: snapshot and tracking in the CID stores -/
-def updCanonTrack (env : Env) (stream : String) (streamPos : Nat) (peerId : String) (c : Ctx) : (CanonStream × Cid) × Ctx :=
-  let values := match c.getStream stream streamPos with
-    | some s => s.all
-    | none => []
-  let cs : CanonStream := ⟨values, { peerPk := peerId }⟩
+def updCanonTrack (env : Env) (target : CanonTarget) (stream : String) (streamPos : Nat) (peerId : String) (c : Ctx) : (CanonStream × Cid) × Ctx :=
+  let cs : CanonStream := canonProduce target c stream streamPos peerId
   let (cid, st) := trackCanonResult env c.cid cs
   ((cs, cid), { c with cid := st })
 
-/-- registering the canon id, binding the canon stream and pushing `Executed(cid)` -/
-def updCanonFinish (canonName : String) (cs : CanonStream) (cid : Cid) (registerFor : String) (c : Ctx) : ER Ctx := do
-  let sc ← c.scalars.setCanonValue canonName ⟨cs, cid⟩
+/-- registering the canon id, binding the canon stream / canon map / scalar and pushing `Executed(cid)` -/
+def updCanonFinish (target : CanonTarget) (cs : CanonStream) (cid : Cid) (registerFor : String) (c : Ctx) : ER Ctx := do
+  let sc ← canonBind target cs cid c
   let c := c.recordCanonCid registerFor cid
   pure { c with scalars := sc, th := c.th.meetCanonEnd (.executed cid) }
 
@@ -131,7 +128,7 @@ structure ExecPrims (R : Ctx → Ctx → Prop) : Prop where
   thApStart : ∀ c met th', c.th.meetApStart = .ok (met, th') → R c { c with th := th' }
   pushAp : ∀ c, R c { c with th := c.th.meetApEnd [generationStub] }
   thCanonStart : ∀ c met th', c.th.meetCanonStart = .ok (met, th') → R c { c with th := th' }
-  canonTrack : ∀ env stream pos peerId c, R c (updCanonTrack env stream pos peerId c).2
+  canonTrack : ∀ env target stream pos peerId c, R c (updCanonTrack env target stream pos peerId c).2
   canonFinish : ∀ name cs cid reg c c', updCanonFinish name cs cid reg c = .ok c' → R c c'
   /-- a canon request found in the data is re-emitted; a canon addressed elsewhere is marked as sent -/
   canonPushRequest : ∀ c sender, R c { c with subgraphComplete := false, th := c.th.meetCanonEnd (.requestSentBy sender) }
@@ -191,6 +188,9 @@ theorem sameButStreams_addStreamValue {c c' : Ctx} {v : ValueAggregate} {name : 
   · obtain ⟨s', _, h2⟩ := res_bind_ok'' h
     injection h2 with h2; subst h2
     exact ⟨rfl, rfl, rfl, rfl, rfl, rfl, rfl, rfl, rfl, rfl, rfl, rfl⟩
+
+theorem sameButStreams_addStreamMapValue {c c' : Ctx} {k : Lens.StreamMapKey} {v : ValueAggregate} {name : String} {g : Generation} {pos : Nat}
+    (h : c.addStreamMapValue k v name g pos = .ok c') : SameButStreams c c' := sameButStreams_addStreamValue h
 
 theorem rel_liftTH_of {R : Ctx → Ctx → Prop} {α : Type} (hR : Preorder' R) (i : Instr) (f : TraceHandler → TR (α × TraceHandler))
     (h : ∀ c a th', f c.th = .ok (a, th') → R c { c with th := th' }) : Rel R (liftTH i f) := by
@@ -528,20 +528,36 @@ theorem ep_execApStream (i : Instr) (arg : Value) (name : String) (pos : Nat) : 
     · intro _
       exact rel_modifyCtx fun c => P.pushAp c
 
-theorem ep_canonFinish (name : String) (cs : CanonStream) (cid : Cid) (reg : String) : Rel R (canonFinish name cs cid reg) := by
+theorem ep_execApMap (i : Instr) (key val : Value) (name : String) (pos : Nat) : Rel R (execApMap i key val name pos) := by
+  unfold execApMap
+  apply rel_bind P.pre (rel_joinable P.pre (rel_readER P.pre _) (ep_inc P)); intro r
+  split
+  · exact rel_pure P.pre _
+  · apply rel_bind P.pre (rel_liftTH_of P.pre _ _ (fun c a th' h => P.thApStart c a th' h)); intro met
+    apply rel_bind P.pre (rel_joinable P.pre (rel_readER P.pre _) (ep_inc P)); intro k
+    split
+    · exact rel_pure P.pre _
+    · apply rel_bind P.pre
+      · apply rel_modifyER P.pre
+        intro c c' h
+        exact P.streamUpd c c' (sameButStreams_addStreamMapValue h)
+      · intro _
+        exact rel_modifyCtx fun c => P.pushAp c
+
+theorem ep_canonFinish (name : CanonTarget) (cs : CanonStream) (cid : Cid) (reg : String) : Rel R (canonFinish name cs cid reg) := by
   unfold canonFinish
   exact rel_modifyER P.pre fun c c' h => P.canonFinish name cs cid reg c c' h
 
-theorem ep_createCanonFirstTime (env : Env) (name stream : String) (pos : Nat) (peerId : String) :
+theorem ep_createCanonFirstTime (env : Env) (name : CanonTarget) (stream : String) (pos : Nat) (peerId : String) :
     Rel R (createCanonFirstTime env name stream pos peerId) := by
   intro c
   have h1 : (createCanonFirstTime env name stream pos peerId) c =
-      (canonFinish name (updCanonTrack env stream pos peerId c).1.1 (updCanonTrack env stream pos peerId c).1.2 peerId)
-        (updCanonTrack env stream pos peerId c).2 := rfl
+      (canonFinish name (updCanonTrack env name stream pos peerId c).1.1 (updCanonTrack env name stream pos peerId c).1.2 peerId)
+        (updCanonTrack env name stream pos peerId c).2 := rfl
   rw [h1]
-  exact P.pre.trans (P.canonTrack env stream pos peerId c) (ep_canonFinish P _ _ _ _ _)
+  exact P.pre.trans (P.canonTrack env name stream pos peerId c) (ep_canonFinish P _ _ _ _ _)
 
-theorem ep_execCanon (env : Env) (i : Instr) (peer : Value) (stream : String) (pos : Nat) (name : String) :
+theorem ep_execCanon (env : Env) (i : Instr) (peer : Value) (stream : String) (pos : Nat) (name : CanonTarget) :
     Rel R (execCanon env i peer stream pos name) := by
   unfold execCanon
   apply rel_bind P.pre (rel_liftTH_of P.pre _ _ (fun c a th' h => P.thCanonStart c a th' h)); intro met
@@ -697,6 +713,9 @@ theorem ep_execInner (env : Env) (fuel : Nat) (ih : ∀ i, Rel R (exec env fuel 
     split
     · exact ep_execApStream P _ _ _ _
     · exact ep_execAp P _ _
+  · exact ep_execApMap P _ _ _ _ _
+  · exact ep_execCanon P _ _ _ _ _ _
+  · exact ep_execCanon P _ _ _ _ _ _
   · exact ep_execCanon P _ _ _ _ _ _
   · exact ep_execFail P _
   · -- fold scalar
@@ -765,6 +784,20 @@ theorem ep_execInner (env : Env) (fuel : Nat) (ih : ∀ i, Rel R (exec env fuel 
           · exact rel_pure P.pre _
           · exact rel_reraise P.pre _
           · exact rel_reraise P.pre _
+    · -- new %map (same store)
+      apply rel_bind P.pre
+      · apply rel_modifyCtx; intro c
+        exact P.streamUpd _ _ (sameButStreams_scopeStart c _ _ _)
+      · intro _
+        apply rel_bind P.pre (rel_tryM (ih _)); intro res
+        apply rel_bind P.pre
+        · apply rel_tryM
+          exact rel_modifyER P.pre fun c c' h => P.scopeEnd _ c c' h
+        · intro ep
+          split
+          · exact rel_pure P.pre _
+          · exact rel_reraise P.pre _
+          · exact rel_reraise P.pre _
     · -- new #canon
       apply rel_bind P.pre
       · apply rel_modifyCtx; intro c; ctlstep
@@ -778,7 +811,19 @@ theorem ep_execInner (env : Env) (fuel : Nat) (ih : ∀ i, Rel R (exec env fuel 
             · exact rel_pure P.pre _
             · apply rel_bind P.pre (rel_readCtx P.pre _); intro _; exact rel_throwE P.pre _
           · exact rel_reraise P.pre _
-    · exact rel_throwE P.pre _
+    · -- new #%canon-map
+      apply rel_bind P.pre
+      · apply rel_modifyCtx; intro c; ctlstep
+      · intro _
+        apply rel_bind P.pre (rel_tryM (ih _)); intro res
+        apply rel_bind P.pre
+        · unfold newLeaveCanonMap; exact rel_stateER P.pre fun c a c' h => hscr h
+        · intro ok
+          split
+          · split
+            · exact rel_pure P.pre _
+            · apply rel_bind P.pre (rel_readCtx P.pre _); intro _; exact rel_throwE P.pre _
+          · exact rel_reraise P.pre _
   · -- fold over a stream
     apply rel_bind P.pre (rel_readCtx P.pre _); intro ex
     split
@@ -797,7 +842,24 @@ theorem ep_execInner (env : Env) (fuel : Nat) (ih : ∀ i, Rel R (exec env fuel 
         · apply rel_modifyCtx; intro c; ctlstep
         · intro _
           exact rel_liftTH'_of P.pre _ _ (fun c th' h => P.thFoldOp c th' (.foldEnd _ h))
-  · exact rel_throwE P.pre _
+  · -- fold over a stream map (same store)
+    apply rel_bind P.pre (rel_readCtx P.pre _); intro ex
+    split
+    · exact ep_makeSubgraphIncomplete P
+    · apply rel_bind P.pre
+      · apply rel_stateER P.pre
+        intro c a c' h
+        injection h with h; injection h with _ h; subst h
+        exact P.foldCount c
+      · intro foldId
+        apply rel_bind P.pre (rel_liftTH'_of P.pre _ _ (fun c th' h => P.thFoldOp c th' (.foldStart _ h))); intro _
+        apply rel_bind P.pre (ep_foldStreamGet P _ _); intro s
+        apply rel_bind P.pre (rel_modifyCtx fun c => ep_setStream P _ _ _ c); intro _
+        apply rel_bind P.pre (ep_execFoldStreamLoop P env fuel ih _ _ _ _ _ _ _ _ _ _ _); intro complete
+        apply rel_bind P.pre
+        · apply rel_modifyCtx; intro c; ctlstep
+        · intro _
+          exact rel_liftTH'_of P.pre _ _ (fun c th' h => P.thFoldOp c th' (.foldEnd _ h))
 
 /-- **The generic invariant theorem**: any preorder preserved by the primitive updates relates the
 context before and after executing any script with any fuel, on every exit (ok / error / panic). -/
